@@ -2712,9 +2712,24 @@ impl QueryJob {
                                     continue;
                                 }
 
+                                // A request-local fact joins the relation for this request's queries,
+                                // so it must satisfy the relation's schema like any other insert.
+                                let tuple = Tuple::new(values);
+                                if let Err(e) = storage.validate_tuples_in(
+                                    &kg_name,
+                                    &rule.head.relation,
+                                    std::slice::from_ref(&tuple),
+                                ) {
+                                    messages.push(format!(
+                                        "Session fact rejected for '{}': {}",
+                                        rule.head.relation, e
+                                    ));
+                                    current_stmt.clear();
+                                    continue;
+                                }
+
                                 // Store for temporary insertion before query execution
-                                session_fact_tuples
-                                    .push((rule.head.relation.clone(), Tuple::new(values)));
+                                session_fact_tuples.push((rule.head.relation.clone(), tuple));
                                 messages.push(format!(
                                     "Session fact added for '{}'. (Use +{}(...) to persist)",
                                     rule.head.relation, rule.head.relation
@@ -4641,8 +4656,12 @@ impl Handler {
                         }
 
                         let relation = rule.head.relation.clone();
-                        self.sessions
-                            .insert_ephemeral(sid, &relation, vec![Tuple::new(values)])?;
+                        // Same schema check as the session API (`session_insert_ephemeral`).
+                        let tuples = vec![Tuple::new(values)];
+                        if let Ok(kg) = self.sessions.session_kg(sid) {
+                            self.validate_tuples_against_schema(&kg, &relation, &tuples)?;
+                        }
+                        self.sessions.insert_ephemeral(sid, &relation, tuples)?;
                         return Ok(self.message_result(&format!(
                             "Session fact added for '{relation}'. (Use +{relation}(...) to persist)"
                         )));
